@@ -2,6 +2,17 @@
 BASE_OFF = "cd /repo && GOFLAGS=-mod=mod GOPROXY=off go test -mod=mod -json -vet=off -count=1 -timeout 25m ./..."
 
 ENGINES = [
+    dict(name="aggsender", path="specs/AggSender.tla specs/AggSenderTrace.tla harness/areas/aggsender checks/aggsender_common.py", serves_properties=["C02", "C03", "C09", "C13"],
+         kind_free_text="implementation-shaped spec of the certificate send path (ticks, status checker, PP flow range/height/LER rules, SQL storage by "
+                        "height, start-up reconciliation, crashes, DB loss) against a scripted Agglayer; TLC exhaustive; edge-cover behaviours replayed into "
+                        "the real AggSender loop + PP flow + storage + real L2 bridge and L1 info stores; certificates received are named and judged by TLC"),
+    dict(name="oracle", path="specs/Oracle.tla specs/OracleTrace.tla harness/areas/oracle checks/C15.py", serves_properties=["C15"],
+         kind_free_text="TLC exhaustive safety + TLC liveness (weak fairness, treadmill quotient of an unbounded L1) on the processLatestGER spec; edge-cover, "
+                        "treadmill and random schedules replayed into the real AggOracle on the real L1-info store; TLC trace validation (safety per received "
+                        "call, bounded response per run of ticks)"),
+    dict(name="certcut", path="specs/CertCut.tla specs/CertCutTrace.tla harness/areas/certcut checks/C17.py", serves_properties=["C17"],
+         kind_free_text="TLC exhaustive on the code-shaped limitCertSize/Range/AdaptCertificate/Gap operators with W-bit wrap-around; every enumerated case "
+                        "replayed into the real functions at both ends of uint64; TLC trace validation"),
     dict(name="globalindex", path="specs/GlobalIndex.tla specs/GlobalIndexTrace.tla harness/areas/globalindex checks/C19.py", serves_properties=["C19"],
          kind_free_text="TLC exhaustive on the byte-string codec spec and exporter of all zero/non-zero byte patterns; patterns x byte values, boundary, "
                         "random and canonical values run through the real codec, real PP/FEP flows and real gRPC clients; TLC trace validation of round "
@@ -21,7 +32,61 @@ _STORE_TECH = "TLA+ model checking (TLC) of Store.tla + edge-cover behaviours re
 _STORE_NOTE = ("trusted: TLC; reference keccak Merkle tree / Solidity leaf packing in harness/names (names identify hashes); SQL-trigger fault "
                "injector; bounds: H=3 and <= 7 leaves in the exhaustive model, real height 32 in replay")
 
+_AG_TECH = "TLA+ model checking (TLC) of AggSender.tla + edge-cover behaviours replayed into the real send path + TLC trace validation (AggSenderTrace.tla)"
+_AG_NOTE = ("trusted: TLC; scripted Agglayer (E1: a failing call has no effect; E2: latest settled/pending headers as the service computes them; certificate id commits to the metadata); reference trees/packings in harness/names; PP flow only; bounds: <= 4 L2 blocks and <= 4 certificates in the exhaustive model")
+
 CHECKS = {
+    "C02": dict(engine="aggsender", category="model_checking", design_ref="DESIGN.md section 5 C02", technique=_AG_TECH, note=_AG_NOTE,
+        text="TLC explores every interleaving of new L2 blocks, epoch ticks, status ticks, Agglayer verdicts and failing Agglayer calls (both retry "
+             "settings) on the spec of the send path as coded and checks height/previous-root/first-block/retry/no-overlap/settled-chain invariants on "
+             "the ledger of what the Agglayer received; the edge cover is replayed into the real AggSender loop iterations, PP flow, SQL storage and "
+             "status checker over real bridge and L1 info stores, and every certificate the scripted Agglayer receives is judged by TLC against the "
+             "same predicates, evaluated with the statuses at the moment of submission."),
+    "C03": dict(engine="aggsender", category="model_checking", design_ref="DESIGN.md section 5 C03", technique=_AG_TECH, note=_AG_NOTE,
+        text="For every certificate received in the replayed behaviours (L2 histories with bridges, claims, empty blocks; previous certificate none / "
+             "settled / in error) TLC checks on names: appending its exits to the tree of its previous root gives its new root, its exits are exactly "
+             "the deposits of its block range in order (leaf values recomputed with the reference packing from what was sent), its imported exits are "
+             "exactly the claims of the range with leaf, origin and global index preserved, and the metadata decodes to that range."),
+    "C09": dict(engine="aggsender", category="model_checking", design_ref="DESIGN.md section 5 C09", technique=_AG_TECH, note=_AG_NOTE,
+        text="The driver builds a joint L1/L2 history with genuine proofs (mainnet deposits, another rollup's deposits and verified batches, five L1 "
+             "info leaves, claims made against covering, finalized leaves; the finalized pointer moves by seed); for every imported bridge exit of "
+             "every received certificate TLC checks that all claim proofs name one L1 info root with the stated leaf count, that the L1 leaf, its GER, "
+             "and each sibling of the GER->root, leaf->MER / leaf->LER and LER->RER legs carry the names of the reference subtrees (hence fold to the "
+             "roots), and that the GER is the one the claim was made against."),
+    "C13": dict(engine="aggsender", category="model_checking", design_ref="DESIGN.md section 5 C13", technique=_AG_TECH, note=_AG_NOTE,
+        text="TLC explores a crash at every visible step of the send path (before submit, after submit, after store), loss of the certificate DB while "
+             "down and restarts, with and without prev-LER in Agglayer headers, and checks the ledger invariants plus 'a fault-free restart never "
+             "refuses' (the code before the F4 repair is kept as a model variant in which TLC must find the permanent refusal); behaviours are replayed "
+             "into the real node (panic inside SendCertificate as the crash, fresh DB file as the loss, whole-save failures and statement-level "
+             "persistent faults in the save transaction) and TLC judges: restart reconciles, reconciled record = Agglayer's latest, one row per "
+             "height, rows match what was submitted, a save that failed for good leaves the previous record intact, and the next certificates obey "
+             "the C02 predicates."),
+    "C15": dict(
+      engine="oracle", category="model_checking", design_ref="DESIGN.md section 5 C15, Appendix A.4, section 6 F3",
+      text="TLC checks processLatestGER as coded and as repaired (Oracle.tla, Rule=code/fixed) exhaustively for a bounded L1 (<=6 blocks, <=3 leaves, "
+           "syncer behind/at/ahead, one failure per run, reorg, foreign injection) against 'inject only the latest root at/below a block that was final "
+           "when sampled and not on L2', and checks liveness 'a pending finalized root leads to an injection' with TLC's liveness checker under weak "
+           "fairness on a sliding-window quotient of an unbounded L1 for four rules (code: starvation lasso F3; naive and first repair candidate: "
+           "deadlock on a kept block without roots; fixed: holds). TLC's edge cover, treadmill schedules and seeded random long schedules are replayed "
+           "tick by tick into the real AggOracle over the real L1-info store, a scripted L1 client and a recording chain sender; TLC judges every "
+           "recorded trace against OracleTrace.tla (safety per received call; an injection within 2*lag+2 failure-free ticks while a finalized root "
+           "is pending and the store advances).",
+      note="trusted: TLC; GER names recomputed by the driver; finality = FinalizedBlock, reorgs only above it; a scripted failing call has no effect; "
+           "treadmill window 4/5 blocks (larger lags only by replay)",
+      technique="TLA+ model checking incl. liveness (TLC) + behaviour replay into real code + TLC trace validation"),
+    "C17": dict(
+        engine="certcut", category="model_checking", design_ref="DESIGN.md section 5 C17",
+        text="TLC checks limitCertSize's loop, CertificateBuildParams.Range, MaxL2BlockNumberLimiter.AdaptCertificate and BlockRange.Gap as coded "
+             "(CertCut.tla, uint64 modelled as 3/4-bit words with wrap-around) against the declarative cut (same first block, greatest permitted last "
+             "block, exactly the events of the kept blocks in order, over the size limit only as a single block; Gap empty iff ranges touch or overlap, "
+             "else exactly the blocks strictly between) for every certificate layout, size threshold, last-block limit, retry/resize/require-bridge "
+             "flag, Range request and pair of ranges; every enumerated case is run through the real functions (size cut via "
+             "GetCertificateBuildParamsInternal on a real base flow) as is, shifted so the model's maximum is 2^64-1, and split across both ends, plus "
+             "seeded random certificates up to 120 blocks/40 events; TLC judges every recorded outcome against the monitor CertCutTrace.tla.",
+        note="trusted: TLC; symbolic [zone,offset] embedding of uint64 into TLC integers; size model constants read from the code, float sum "
+             "accepted either way on whole-byte sizes; refusals of the limiter/Range are not judged; certificates span < 2^63 blocks; "
+             "size cut starts at block >= 1",
+        technique="TLA+ model checking (TLC) + case replay into real code + TLC trace validation"),
     "C19": dict(
         engine="globalindex", category="other", design_ref="DESIGN.md section 5 C19",
         text="TLC checks GenerateGlobalIndex/DecodeGlobalIndex and the 32-byte little/big-endian forms as coded (GlobalIndex.tla, integers as byte strings) "
